@@ -334,7 +334,7 @@ func cmdCheck(args []string) {
 	trusted := map[string]int{}
 	uncontr := map[string]int{}
 	inlined := map[string]int{}
-	var spawns, houdini []string
+	var spawns, houdini, csAssume []string
 	var fnList []map[string]any
 	for _, r := range results {
 		for k, v := range r.Trusted {
@@ -347,6 +347,9 @@ func cmdCheck(args []string) {
 			inlined[k] += v
 		}
 		spawns = append(spawns, r.Spawns...)
+		for k := range r.CallsiteAssumptions {
+			csAssume = append(csAssume, k)
+		}
 		n, p := 0, 0
 		for _, o := range r.Obls {
 			n++
@@ -366,6 +369,9 @@ func cmdCheck(args []string) {
 	}
 	for _, k := range sortedKeys(uncontr) {
 		tb = append(tb, "uncontracted call (havoc of all heap state, result unconstrained): "+k)
+	}
+	for _, k := range uniq(csAssume) {
+		tb = append(tb, "assumed at a call site: "+k)
 	}
 	tb = append(tb, "immutable package-level variables read as constants; errors made by errors.New/fmt.Errorf in var declarations are non-nil")
 	samples := []any{}
